@@ -483,6 +483,21 @@ def match_known(pid, prob, known):
 
 def finish(ctx, coq, trusted, assumptions, level='proof', explanation=None):
     """Decide, write evidence and replay files, print VIOLATION / KNOWN-FINDING lines, return exit code."""
+    if coq and ctx.thorough() and 'coqchk' not in ctx.extra:
+        # independent re-check of the compiled property file and everything it depends on.  Developments over R
+        # (Coquelicot / Interval in the cone) take more than 25 minutes in coqchk and are re-checked by coqc only.
+        uses_r = False
+        for f in cone('Properties/%s.v' % ctx.pid):
+            pth = os.path.join(COQ, f)
+            if os.path.exists(pth) and re.search(r'Require Import[^.]*\b(Reals|Coquelicot|Interval)\b', strip_comments(open(pth).read())):
+                uses_r = True
+        if uses_r:
+            ctx.extra['coqchk'] = {'run': False, 'why': 'the development depends on Reals / Coquelicot / Interval: coqchk did not finish within 25 minutes on C03 (measured); coqc full .vo build only'}
+        else:
+            rc_, out_, dt_ = coq.coqchk()
+            ctx.extra['coqchk'] = {'run': True, 'rc': rc_, 'seconds': round(dt_, 1), 'tail': out_[-1500:]}
+            if rc_ != 0:
+                coq.broken.append({'kind': 'proof', 'file': 'Properties/%s.v' % ctx.pid, 'lemma': 'coqchk', 'error': out_[-400:]})
     known = load_known()
     fired, viol = {}, []
     for p in ctx.problems:
